@@ -92,6 +92,7 @@ class Result:
         self.status = 'ok'
         self.evals = 0            # executions of the real code that an oracle judged
         self.nontrivial = []      # fingerprints of distinct non-trivial cases
+        self.nontrivial_n = 0     # further non-trivial cases that are distinct by construction (enumerations)
         self.counters = {}
         self.sets = {}
         self.sample = None
@@ -214,6 +215,7 @@ def main(modname, argv):
 
         evals = 0
         nontrivial = set()
+        nontrivial_n = 0
         counters = {}
         sets = {}
         samples = []
@@ -227,6 +229,7 @@ def main(modname, argv):
                 done += 1
                 evals += d['evals']
                 nontrivial.update(d['nontrivial'])
+                nontrivial_n += d.get('nontrivial_n', 0)
                 for k, v in d['counters'].items():
                     counters[k] = counters.get(k, 0) + v
                 for k, v in d['sets'].items():
@@ -268,7 +271,7 @@ def main(modname, argv):
         wall = time.time() - t0
         cov = {
             'evaluations': evals,
-            'distinct_nontrivial': len(nontrivial),
+            'distinct_nontrivial': len(nontrivial) + nontrivial_n,
             'rule': mod.RULE,
             'samples': samples,
             'cases_planned': len(descs),
@@ -295,7 +298,7 @@ def main(modname, argv):
             os.replace(tmp, os.path.join(EVIDENCE, '%s.json' % pid))
 
         print('%s tier=%s seed=%d cases=%d/%d evaluations=%d distinct_nontrivial=%d violations=%d inconclusive=%d wall=%.1fs'
-              % (pid, args.tier, args.seed, done, len(descs), evals, len(nontrivial), len(new_viol), len(inconcl), wall))
+              % (pid, args.tier, args.seed, done, len(descs), evals, len(nontrivial) + nontrivial_n, len(new_viol), len(inconcl), wall))
         for k, v in sorted(counters.items()):
             print('  %-40s %d' % (k, v))
         for k, v in sorted(sets.items()):
